@@ -462,6 +462,7 @@ type foreignSpec struct {
 	trailing    bool // an extra element after signerInfos (Go ignores and drops it)
 	twoSigners  bool
 	unauth      bool // an unauthenticated attribute of our own
+	unauthRaw   []byte // if set: the unauthenticated attributes (their encodings, concatenated) instead
 	attrExtra   bool // an attribute SEQUENCE with a third element (dropped by a parse/re-marshal of the list, kept by the raw bytes)
 	content     []byte
 	ctype       asn1.ObjectIdentifier // nil = data
@@ -535,7 +536,9 @@ func (s foreignSpec) signerInfo(id *ident, order int) []byte {
 		sigAlg,
 		tl(0x04, sig),
 	}
-	if s.unauth {
+	if s.unauthRaw != nil {
+		parts = append(parts, tl(0xA1, s.unauthRaw))
+	} else if s.unauth {
 		parts = append(parts, tl(0xA1, tl(0x30, tl(0x06, oidContent(oidCustom2)), tl(0x31, tl(0x0c, []byte("note"))))))
 	}
 	if s.nonMinSI > 0 {
@@ -832,6 +835,8 @@ func Gen(w *bufio.Writer, seed uint64, tier string) {
 			}
 		}
 	}
+	// (d) field-level: every edit entry point on SignedData values that populate every field
+	genEdits(p, r, scale)
 	// (b2) the builder rule
 	for i := 0; i < 120*scale; i++ {
 		m := r.Intn(5)
@@ -1294,6 +1299,8 @@ func Impl() {
 			return "ok"
 		case "detach":
 			return implDetach(hx.MustUnHex(f[2]))
+		case "edit":
+			return implEdit(f[1], hx.MustUnHex(f[3]), hx.MustUnHex(f[4]))
 		case "stamp":
 			return implStamp(hx.MustUnHex(f[2]), hx.MustUnHex(f[3]), hx.MustUnHex(f[4]), hx.MustUnHex(f[5]))
 		}
